@@ -212,7 +212,7 @@ public:
         if (bad) {
             std::string key = oracle + (keySuffix.empty() ? "" : "/" + keySuffix);
             violation(key, oracle + ": residual " + fmtd(value) + " > bound " + fmtd(bound) + " at " + (where ? where() : ""),
-                      replay ? replay() : (where ? where() : ""));
+                      replay ? replay() : replayHeader() + (where ? where() : ""));
         }
         return !bad;
     }
@@ -221,7 +221,7 @@ public:
                 const std::function<std::string()>& replay = nullptr) {
         acc.transitions++;
         acc.counters["oracle:" + key + (ok ? ":ok" : ":FAIL")]++;
-        if (!ok) violation(key, what ? what() : key, replay ? replay() : (what ? what() : ""));
+        if (!ok) violation(key, what ? what() : key, replay ? replay() : replayHeader() + (what ? what() : ""));
         return ok;
     }
     void violation(const std::string& key, const std::string& what, const std::string& replay) {
@@ -451,6 +451,9 @@ private:
               << ", \"bound\": " << jsonNum(kv.second.bound) << ", \"worst_at\": \"" << jsonEscape(kv.second.where) << "\"}"; first = false; } }
         o << "},\n";
         o << "  \"known_finding_occurrences\": " << knownViol << ",\n";
+        o << "  \"violation_keys\": {";
+        { bool first = true; for (auto& kv : acc.violCountByKey) { o << (first ? "" : ", ") << "\"" << jsonEscape(kv.first) << "\": {\"count\": " << kv.second << ", \"known\": " << (known_.count(kv.first) ? "true" : "false") << "}"; first = false; } }
+        o << "},\n";
         o << "  \"samples\": [";
         { bool first = true; for (auto& s : acc.samples) { o << (first ? "" : ", ") << "\"" << jsonEscape(s) << "\""; first = false; }
           if (acc.samples.empty()) o << "\"(no sample recorded)\""; }
